@@ -1246,6 +1246,12 @@ class NumbaBackend(NumpyBackend):
                 arrays = ", ".join(f"{self._print(expr)}" for expr in arr)
                 return f"[{arrays}]"
 
+            def _print_Integer(self, expr):
+                if abs(expr.p) >= 2**63:
+                    # numba cannot type integer literals exceeding 64 bits
+                    return repr(float(expr.p))
+                return super()._print_Integer(expr)
+
         printer = ListArrayPrinter(
             {
                 "fully_qualified_modules": False,
